@@ -12,7 +12,7 @@ from lib import clist, cstr, cz
 warnings.filterwarnings("ignore")
 N = {"quick": (600, 250, 300), "thorough": (12000, 4000, 5000)}     # merge cases, chain scripts, accept/reject probes
 NG = {"quick": 600, "thorough": 9000}                                 # guard cases (two chained extends)
-NB = {"quick": 700, "thorough": 9000}                                 # builder tree cases (prefix in a simplifiable form + one step)
+NB = {"quick": 500, "thorough": 8000}                                 # builder tree cases (prefix in a simplifiable form + one step)
 
 
 def cpair_list(d, ids):
@@ -225,6 +225,27 @@ def targeted_window_chain(rng, tables):
     return s
 
 
+ORDER_READING_FNS = {"first", "last", "ffill", "bfill", "_count", "cumcount", "_row_number", "row_number", "cumsum", "cummax", "cummin", "cumprod",
+                     "shift", "lag", "lead", "any_value", "nth", "head", "tail"}
+
+
+def script_shape(s):
+    """narrow description of the one shape of the known finding C06-unordered-window-after-order_rows: an extend WITHOUT order_by that
+    applies a window function reading the order of its partition, directly on an order_rows without limit (which the builder drops)"""
+    import re
+    while s["op"] != "table":
+        if s["op"] == "extend" and not (s.get("order_by") or []):
+            src = s["src"]
+            if src["op"] == "order_rows" and src.get("limit") is None and src.get("columns"):
+                fns = set()
+                for e in s["ops"].values():
+                    fns |= set(re.findall(r"\.?([A-Za-z_]\w*)\(", str(e)))
+                if fns & ORDER_READING_FNS:
+                    return "unordered-order-reading-window-fn-directly-after-order_rows-without-limit"
+        s = s["src"]
+    return "other"
+
+
 def check_script(chk, s, tables, sample=False):
     """one chained script: the builder must accept it exactly when the step-by-step build does, and both must evaluate alike"""
     import pipes
@@ -265,7 +286,7 @@ def check_script(chk, s, tables, sample=False):
     if d is not None:
         chk.impl_violation("chained pipeline differs from step-by-step application: " + d,
                            {"kind": "impl-violation", "script": pipes.to_json(s), "pipeline": str(ops), "tables": tables, "chain": pipes.frame_to_json(r1),
-                            "stepwise": pipes.frame_to_json(r2), "diff": d}, {"oracle": "chain", "ops": sorted(set(kinds))})
+                            "stepwise": pipes.frame_to_json(r2), "diff": d}, {"oracle": "chain", "ops": sorted(set(kinds)), "shape": script_shape(s)})
 
 
 def corpus_scripts(chk):
@@ -625,7 +646,7 @@ def builder_correspondence(chk, n):
     pre = ("From Coq Require Import List Bool ZArith QArith String.\nImport ListNotations.\nOpen Scope string_scope.\n"
            "From DA Require Import Base.PyRT Base.Cases Base.Val Model.Sem Model.SemCases Model.MergeGuard Model.Simplify Model.SimplifyCases.\nOpen Scope list_scope.\n"
            "Definition IW : list string := %s.\n" % sl(sorted(er.fn_names_that_imply_windowed_situation)))
-    failing, errors, nchecked = lib.run_case_files("C06b", pre, terms, "check_bcases", per_file=max(60, (len(terms) + 7) // 8))
+    failing, errors, nchecked = lib.run_case_files("C06b", pre, terms, "check_bcases", per_file=min(350, max(60, (len(terms) + 7) // 8)))
     chk.cov["correspondence_builder"] = {"what": "real builder tree for prefix + step vs Model/Simplify.build_step (structural comparison in Coq) and declared_names vs column_names",
                                          "cases": len(terms), "checked_in_coq": nchecked, "disagreements": len(failing), "errors": errors[:2]}
     if errors:
@@ -641,16 +662,28 @@ def builder_correspondence(chk, n):
 
 def run(chk):
     n1, n2, n3 = N[chk.tier]
-    chk.prove(["G_MergeOps"], extra_vo=["theories/Model/MergeCases.vo", "theories/Model/MergeGuardCases.vo"])
+    chk.prove(["G_MergeOps"], extra_vo=["theories/Model/MergeCases.vo", "theories/Model/MergeGuardCases.vo", "theories/Model/SimplifyCases.vo"])
     chk.cov["trusted_base"] = ["Coq 8.16.1 kernel + vm_compute", "tools/py2v.py translator (data_ops_utils.py -> Gen/G_MergeOps.v)",
                                "Model/Extend.v: reference meaning of one extend step (simultaneous assignment; column function local to the expression's columns and the window columns)",
                                "expr_rep.get_columns_used modelled as the union of the expressions' column sets (checked by the merge correspondence)",
-                               "order_rows elimination and select/drop collapsing: covered by the oracles (chain vs steps, accept/reject), theorem pending in RefSem"]
+                               "Model/Simplify.v: hand transcription of what each builder method RETURNS for a step on a prefix (order_rows skipping with the forwarded arguments, select_columns "
+                               "collapsing, extend merging over the regenerated try_to_merge_ops + Model/MergeGuard.v, nothing-to-do exits); tied on every run by structural comparison, inside Coq, "
+                               "with the tree the real builder returns for prefix + step through the public API",
+                               "Model/Sem.v: reference semantics of every operator for every backend flavour (tied to the five backends by the execcorr runs of C01/C03/C08/C18/C27)",
+                               "Model/Builder.v (C26) for C06_chain_accepts_iff: hand model of the builders' validation, tied by C26's correspondence"]
     chk.assumptions = ["extend validation guarantees an extend never assigns its own partition/order columns (theorem hypothesis)",
-                       "dict keys are unique (NoDup hypothesis; Python dicts)"]
+                       "dict keys are unique (NoDup hypothesis; Python dicts)",
+                       "C06_chain_eq_steps / C06_order_rows_elimination_sound carry C18's premise for each step on its actual input (step_insensitive): an order-sensitive window function "
+                       "orders every partition strictly, group keys have one representation per value, a limit is taken under a total order; without it the statement is refuted "
+                       "(C06_order_rows_elimination_unordered_window_refuted; known finding C06-unordered-window-after-order_rows)",
+                       "step_valid / prefix_ok: what the builder validated (C26): select_columns names known columns, a rename does not merge two columns, an extend node's keys are distinct",
+                       "the result is compared as a multiset of rows up to column order (tab_sim); row for row after a total final order_rows (theorem C06_chain_eq_steps_row_for_row_under_total_final_order)"]
     chk.cov["rule"] = ("(1) random pairs of assignment dicts over 6 column names (correspondence of try_to_merge_ops); (2) random chained scripts of 2-6 steps over two "
                        "random tables (one third: 2-3 consecutive extends with overlapping/overwriting assignments) evaluated chained and step-by-step on Pandas; "
-                       "(3) prefix + one valid-or-invalid next step, accepted/rejected by the simplified prefix vs a bare table of the same columns; non-trivial = >=2 steps; distinct by content")
+                       "(3) prefix + one valid-or-invalid next step, accepted/rejected by the simplified prefix vs a bare table of the same columns; "
+                       "(4) prefix forced into one of 22 forms (ending in order_rows with/without limit, select, drop, plain/windowed extend, and two-level combinations) + one accepted step of "
+                       "every kind with non-default forwarded arguments (reverse, limit, check flag, a_name/b_name, tuple argument, deletions, windows equal to or a near miss of the extend below): "
+                       "real builder tree vs Model/Simplify.build_step; non-trivial = >=2 steps; distinct by content")
     if os.path.exists(os.path.join(lib.COQ, "theories/Model/MergeCases.vo")):
         merge_correspondence(chk, n1)
     else:
@@ -660,6 +693,10 @@ def run(chk):
     else:
         chk.corr_break("Model/MergeGuardCases.vo not built", "")
     corpus_scripts(chk)
+    if os.path.exists(os.path.join(lib.COQ, "theories/Model/SimplifyCases.vo")):
+        builder_correspondence(chk, NB[chk.tier])
+    else:
+        chk.corr_break("Model/SimplifyCases.vo not built", "")
     chain_vs_steps(chk, n2)
     accept_reject(chk, n3)
 
